@@ -87,7 +87,7 @@ def run_job(job):
             regs.append(("len65535-b", bytes(rnd.randrange(256) for _ in range(65535))))
         regs = [r for i, r in enumerate(regs) if i % job["shards"] == job["shard"]]
         if tier == "quick":
-            keep = {"empty", "1byte", "nul-inside", "utf8", "len65535", "random", "zero8"}
+            keep = {"empty", "1byte", "nul-inside", "utf8", "len65535", "random", "zero8", "len33", "len64", "len128"}
             regs = [r for r in regs if r[0] in keep]
         for ri, (rlab, pw) in enumerate(regs):
             explicit = (ri % 2 == 1)
